@@ -926,91 +926,128 @@ End IdentityUpdates.
 
 (** * The local shortcut *)
 
-(** Full statement: the local path, too, acts only for a child whose registered ID key is the caller's. *)
-Definition local_acts_only_for_registered_key : Prop :=
+(** The statement for a local path [lp]: it acts only for a child whose registered ID key is the caller's. *)
+Definition local_acts_only_for_registered_key_on (lp : parent -> caller -> req -> parent * outcome reply) : Prop :=
   forall st cl r st' out c,
-    local6492 st cl r = (st', out) -> acted_for out = Some c -> out <> Errored c ->
+    lp st cl r = (st', out) -> acted_for out = Some c ->
     exists ch, aget c (p_children st) = Some ch /\ ch_id ch = cl_id cl.
 
-(** F12a witness: parent 1 (ID key 10) has the child 2 (ID key 20, entitled to atoms 0-1, no
-    certificate yet). The CA "mallory" (handle 3, ID key 99) is no child of the parent but stores a
-    parent contact naming child handle 2. Her issuance request is served: a certificate for her
-    key 7 with the victim's resources. *)
+(** *** The repaired tree: the property holds on the local path. *)
+Theorem local_acts_only_for_registered_key : local_acts_only_for_registered_key_on local6492.
+Proof.
+  intros st cl r st' out c. unfold local6492.
+  destruct (aget (cl_contact_child cl) (p_children st)) as [ch|] eqn:Ec;
+    [|intros H; inversion H; subst; discriminate].
+  destruct (ch_id ch =? cl_id cl) eqn:E; [|intros H; inversion H; subst; discriminate].
+  apply N.eqb_eq in E. unfold local6492_pinned.
+  destruct (process st local_ua (cl_contact_child cl) r) as [s1 res].
+  intros H Ha. assert (c = cl_contact_child cl) by (destruct res; inversion H; subst; cbn in Ha; congruence).
+  subst c. eauto.
+Qed.
+
+(** A caller whose ID key is not the one registered for the child named in its contact (or whose
+    contact names nobody) is refused, and a refusal changes nothing. *)
+Theorem local_wrong_key_refused st cl r :
+  (forall ch, aget (cl_contact_child cl) (p_children st) = Some ch -> ch_id ch <> cl_id cl) ->
+  local6492 st cl r = (st, Refused).
+Proof.
+  intros H. unfold local6492. destruct (aget (cl_contact_child cl) (p_children st)) as [ch|]; [|reflexivity].
+  destruct (ch_id ch =? cl_id cl) eqn:E; [|reflexivity]. apply N.eqb_eq in E. destruct (H ch eq_refl E).
+Qed.
+
+Theorem local_refused_no_change st cl r st' : local6492 st cl r = (st', Refused) -> st' = st.
+Proof.
+  unfold local6492. destruct (aget (cl_contact_child cl) (p_children st)) as [ch|]; [|congruence].
+  destruct (ch_id ch =? cl_id cl); [|congruence]. unfold local6492_pinned.
+  destruct (process st local_ua (cl_contact_child cl) r) as [s1 [| |rep|]]; congruence.
+Qed.
+
+(** The shortcut is exactly the remote path fed with the message the caller would have signed with
+    its own ID key - served, failed and refused alike: it is only an optimisation. *)
+Theorem local_equals_remote validate st cl r :
+  cms_sound validate ->
+  let m := mkMsg (cl_contact_child cl) (p_handle st) r (cl_id cl) true in
+  fst (local6492 st cl r) = fst (rfc6492 validate st local_ua m) /\
+  match snd (local6492 st cl r), snd (rfc6492 validate st local_ua m) with
+  | Served c1 r1, Served c2 r2 => c1 = c2 /\ payload r1 = payload r2
+  | Errored c1, Errored c2 | Failed c1, Failed c2 => c1 = c2
+  | Panicked, Panicked | Refused, Refused => True
+  | _, _ => False
+  end.
+Proof.
+  intros Hs m. unfold local6492, local6492_pinned, rfc6492. cbn [sender payload m].
+  destruct (aget (cl_contact_child cl) (p_children st)) as [ch|]; [|cbn; auto].
+  destruct (ch_id ch =? cl_id cl) eqn:E.
+  - apply N.eqb_eq in E.
+    assert (V : validate (ch_id ch) m = true) by (apply Hs; split; [cbn; congruence|reflexivity]).
+    rewrite V. destruct (process st local_ua (cl_contact_child cl) r) as [s1 [| |rep|]]; cbn; auto.
+  - apply N.eqb_neq in E.
+    destruct (validate (ch_id ch) m) eqn:V; [|cbn; auto].
+    apply Hs in V. destruct V as [V _]. cbn in V. congruence.
+Qed.
+
+(** Whoever is served on the local path, the effects are confined to the child named in the contact. *)
+Lemma local_pinned_effects_confined st cl r st' out ch0 :
+  aget (cl_contact_child cl) (p_children st) = Some ch0 -> local6492_pinned st cl r = (st', out) ->
+  confined (ch_ent ch0) (is_issued ch0) (cl_contact_child cl) st st'.
+Proof.
+  intros Hc. unfold local6492_pinned. destruct (process st local_ua (cl_contact_child cl) r) as [s1 res] eqn:Ep.
+  pose proof (process_confined _ _ _ _ _ _ _ Hc Ep) as C. destruct res; intros H; inversion H; subst; exact C.
+Qed.
+
+Theorem local_effects_confined st cl r st' out :
+  local6492 st cl r = (st', out) ->
+  match aget (cl_contact_child cl) (p_children st) with
+  | Some ch0 => confined (ch_ent ch0) (is_issued ch0) (cl_contact_child cl) st st'
+  | None => st' = st
+  end.
+Proof.
+  unfold local6492. destruct (aget (cl_contact_child cl) (p_children st)) as [ch|] eqn:Ec; [|congruence].
+  destruct (ch_id ch =? cl_id cl).
+  - apply local_pinned_effects_confined. exact Ec.
+  - intros H; inversion H; subst. apply confined_refl.
+Qed.
+
+(** *** Regression witness: the originally pinned shortcut (finding F12a, fixed by 1a6ebc01).
+    Parent 1 (ID key 10) has the child 2 (ID key 20, entitled to atoms 0-1, no certificate yet).
+    The CA "mallory" (handle 3, ID key 99) is no child of the parent but stores a parent contact
+    naming child handle 2. On the pinned path her issuance request was served: a certificate for
+    her key 7 with the victim's resources. The repaired path refuses it. *)
 Definition f12a_parent : parent :=
   mkParent 1 10 [(0, mkRC (Some 15) [] [])] [(2, mkChild 20 3 [] false None)] 5.
 Definition f12a_mallory : caller := mkCaller 3 99 2.
 
-Theorem local_path_refuted : ~ local_acts_only_for_registered_key.
+Theorem local_pinned_refuted : ~ local_acts_only_for_registered_key_on local6492_pinned.
 Proof.
   intros H.
   destruct (H f12a_parent f12a_mallory (RIssue 0 7 None true) _ _ 2 eq_refl eq_refl) as [ch [A B]].
-  - discriminate.
-  - cbn in A. inversion A; subst. cbn in B. discriminate.
+  cbn in A. inversion A; subst. cbn in B. discriminate.
 Qed.
 
-(** What the witness obtains, spelled out. *)
-Example f12a_outcome :
-  local6492 f12a_parent f12a_mallory (RIssue 0 7 None true) =
+Example f12a_pinned_outcome :
+  local6492_pinned f12a_parent f12a_mallory (RIssue 0 7 None true) =
   (mkParent 1 10 [(0, mkRC (Some 15) [(7, mkIC 3 None)] [])]
             [(2, mkChild 20 3 [(7, InUse 0)] false (Some (0, true)))] 6,
    Served 2 (mkMsg 1 2 (RepIssue 0 7 3) 0 true)).
 Proof. vm_compute. reflexivity. Qed.
 
-(** Restriction: when the caller's contact names the child it is registered as. *)
-Theorem local_acts_only_when_contact_matches st cl r st' out c :
+Example f12a_repaired_outcome :
+  local6492 f12a_parent f12a_mallory (RIssue 0 7 None true) = (f12a_parent, Refused).
+Proof. vm_compute. reflexivity. Qed.
+
+(** What was true of the pinned shortcut: it was right exactly for honest contacts. *)
+Theorem local_pinned_acts_only_when_contact_matches st cl r st' out c :
   contact_handle_matches_registration st cl ->
-  local6492 st cl r = (st', out) -> acted_for out = Some c -> out <> Errored c ->
+  local6492_pinned st cl r = (st', out) -> acted_for out = Some c -> out <> Errored c ->
   exists ch, aget c (p_children st) = Some ch /\ ch_id ch = cl_id cl.
 Proof.
-  intros Hm Hl Ha Hne. unfold local6492 in Hl.
+  intros Hm Hl Ha Hne. unfold local6492_pinned in Hl.
   destruct (process st local_ua (cl_contact_child cl) r) as [s1 res] eqn:Ep.
   assert (Hc : c = cl_contact_child cl) by (destruct res; inversion Hl; subst; cbn in Ha; congruence).
   subst c. unfold process in Ep.
   destruct (aget (cl_contact_child cl) (p_children st)) as [ch|] eqn:Ec.
   - exists ch. split; [reflexivity|apply Hm; exact Ec].
   - inversion Ep; subst. inversion Hl; subst. congruence.
-Qed.
-
-(** Under the same restriction the shortcut is exactly the remote path fed with a message the
-    caller signed correctly - the shortcut is then only an optimisation. *)
-Theorem local_equals_remote_when_contact_matches validate st cl r ch :
-  cms_sound validate ->
-  aget (cl_contact_child cl) (p_children st) = Some ch -> ch_id ch = cl_id cl ->
-  let m := mkMsg (cl_contact_child cl) (p_handle st) r (cl_id cl) true in
-  fst (local6492 st cl r) = fst (rfc6492 validate st local_ua m) /\
-  match snd (local6492 st cl r), snd (rfc6492 validate st local_ua m) with
-  | Served c1 r1, Served c2 r2 => c1 = c2 /\ payload r1 = payload r2
-  | Errored c1, Errored c2 | Failed c1, Failed c2 => c1 = c2
-  | Panicked, Panicked => True
-  | _, _ => False
-  end.
-Proof.
-  intros Hs Hc Hk m. unfold local6492, rfc6492. cbn [sender payload m]. rewrite Hc.
-  assert (V : validate (ch_id ch) m = true) by (apply Hs; split; [cbn; congruence|reflexivity]).
-  rewrite V. destruct (process st local_ua (cl_contact_child cl) r) as [s1 [| |rep|]]; cbn; auto.
-Qed.
-
-(** Whoever is served on the local path, the effects are confined to the child named in the contact. *)
-Theorem local_effects_confined st cl r st' out ch0 :
-  aget (cl_contact_child cl) (p_children st) = Some ch0 -> local6492 st cl r = (st', out) ->
-  confined (ch_ent ch0) (is_issued ch0) (cl_contact_child cl) st st'.
-Proof.
-  intros Hc. unfold local6492. destruct (process st local_ua (cl_contact_child cl) r) as [s1 res] eqn:Ep.
-  pose proof (process_confined _ _ _ _ _ _ _ Hc Ep) as C. destruct res; intros H; inversion H; subst; exact C.
-Qed.
-
-(** The check proposed in DESIGN.md section 5 restores the full statement. *)
-Theorem local_checked_acts_only_for_registered_key st cl r st' out c :
-  local6492_checked st cl r = (st', out) -> acted_for out = Some c ->
-  exists ch, aget c (p_children st) = Some ch /\ ch_id ch = cl_id cl.
-Proof.
-  unfold local6492_checked. destruct (aget (cl_contact_child cl) (p_children st)) as [ch|] eqn:Ec;
-    [|intros H; inversion H; subst; discriminate].
-  destruct (ch_id ch =? cl_id cl) eqn:E; [|intros H; inversion H; subst; discriminate].
-  apply N.eqb_eq in E. unfold local6492.
-  destruct (process st local_ua (cl_contact_child cl) r) as [s1 res].
-  intros H Ha. assert (c = cl_contact_child cl) by (destruct res; inversion H; subst; cbn in Ha; congruence).
-  subst c. eauto.
 Qed.
 
 (** The publication shortcut serves the caller as the publisher that carries the caller's CA handle. *)
@@ -1080,13 +1117,13 @@ Example replaced_child_key_nonvacuous :
   snd (rfc6492 ideal_validate (set_child_id 2 21 ex_parent) 1 (mkMsg 2 1 RList 21 true)) <> Refused.
 Proof. split; vm_compute; [reflexivity|discriminate]. Qed.
 
-Example local_restricted_nonvacuous :
-  (* an honest local child: contact names handle 2, ID key 20 *)
-  contact_handle_matches_registration ex_parent (mkCaller 2 20 2) /\
-  snd (local6492 ex_parent (mkCaller 2 20 2) RList) = Served 2 (mkMsg 1 2 (RepList [(0, 3, [(5, 3)])]) 0 true).
-Proof.
-  split; [|vm_compute; reflexivity]. intros ch H. cbn in H. inversion H; reflexivity.
-Qed.
+Example local_nonvacuous :
+  (* an honest local child (contact names handle 2, ID key 20) is served; the same child is refused while
+     the parent still has its previous ID key registered, and served again once the parent is told *)
+  snd (local6492 ex_parent (mkCaller 2 20 2) RList) = Served 2 (mkMsg 1 2 (RepList [(0, 3, [(5, 3)])]) 0 true) /\
+  local6492 ex_parent (mkCaller 2 21 2) RList = (ex_parent, Refused) /\
+  snd (local6492 (set_child_id 2 21 ex_parent) (mkCaller 2 21 2) RList) <> Refused.
+Proof. split; [vm_compute; reflexivity|]. split; [vm_compute; reflexivity|vm_compute; discriminate]. Qed.
 
 Example history_nonvacuous :
   (* the same child-2 message is served, then refused after the child's identity was replaced,
@@ -1100,7 +1137,11 @@ Proof. vm_compute. reflexivity. Qed.
 
 (** * Self-test of the executable oracles (IdentCheck.v) on the F12a witness *)
 From KV Require Import ident.IdentCheck.
-Example oracle_flags_f12a : agrees f12a_case = true /\ c12_ok f12a_case = false /\ c12_confined f12a_case = true.
+Example oracle_flags_f12a :
+  (* what the pinned tree did: not explained by the repaired model, and flagged by the oracle *)
+  agrees f12a_case = false /\ c12_ok f12a_case = false /\
+  (* what the repaired tree does *)
+  agrees f12a_repaired_case = true /\ c12_ok f12a_repaired_case = true /\ c12_confined f12a_repaired_case = true.
 Proof. vm_compute. repeat split; reflexivity. Qed.
 Example oracle_accepts_honest_cases :
   let m := mkMsg 3 1 (RIssue 0 6 (Some 4) true) 30 true in
